@@ -130,6 +130,8 @@ def member_pred(x):
     if k == "ci":
         c = x[1]
         # pest folds ASCII letters only: the ASCII case variants of c and nothing else, for every code point
+        if not c.isascii():
+            return (lambda ch: ch == c), False  # no folding outside ASCII (pest: eq_ignore_ascii_case)
         return (lambda ch: ch in (c.lower(), c.upper())), False
     if k == "range":
         lo, hi = x[1], x[2]
@@ -457,6 +459,15 @@ def run_shard(ctx: Ctx, spec):
                 ("alt", (("range", "a", "c"), b, ("str", "!"))),
                 ("alt", (b, ("id", "ASCII_DIGIT"))),
                 ("alt", (("id", "NEWLINE"), b)),
+            ]
+        # B4. one-character case-insensitive literals over cased non-ASCII letters (and ASCII letters whose Unicode
+        # case images leave ASCII): no folding outside ASCII, alone and inside a merged class (seeded change S65)
+        for c in "éÉßǅσςİıKµÿks":
+            matrix += [
+                ("ci", c),
+                ("alt", (("ci", c), ("str", "x"))),
+                ("alt", (("ci", c), ("ci", "k"), ("str", "x"), ("range", "0", "3"))),
+                ("alt", (("range", "0", "3"), ("ci", c))),
             ]
         for j, x in enumerate(matrix):
             if j % 16 != idx:
